@@ -1,6 +1,8 @@
 """C09 - unit conversion preserves the physical amount.
 Theorems: coq/Properties/C09.v (over the regenerated coq/Gen/UnitsToml.v).  Correspondence: L-conv
-(harness/src/bin/conv.rs vs runner/conv_main.ml).  Monitor: the V field of the harness (round trip,
+(harness/src/bin/conv.rs vs runner/conv_main.ml), including the recipe level: the implementation parses and
+scales a recipe, dumps it, converts it (ScaledRecipe::convert) and dumps it again; the model
+(Model/RecipeConvert.v) converts the first dump; the second dumps are compared slot by slot.  Monitor: the V field of the harness (round trip,
 transitivity, best-list membership, amount preservation, failure frame) and the comparison of the
 implementation's unit table with the hand-written standards (coq/Model/Standards.v, printed by the
 runner) done here."""
@@ -14,7 +16,8 @@ from checks import c09_gen
 from vlib import common
 from vlib.common import hx, unhx
 
-DEPS = ["Base/Chars.v", "Model/Convert.v", "Gen/UnitsToml.v", "Model/Standards.v"]
+DEPS = ["Base/Chars.v", "Model/Convert.v", "Gen/UnitsToml.v", "Model/Standards.v", "Model/Scale.v",
+        "Model/RecipeConvert.v"]
 COMMONS = ("common_n.ml", "common_zq.ml")
 PQS = ["volume", "mass", "length", "temperature", "time"]
 SYSTEMS = ["metric", "imperial"]
@@ -226,30 +229,102 @@ def gen_system_cases(rng, tier, units, best, grid, temp_extra, keyvariants):
 
 def gen_recipe_cases(rng, tier, units):
     """recipes whose quantities are already in / not in the target system, in designated and non-designated units,
-    badly fitted values, text values with units, unknown units, no units, timers, inline temperatures, cookware"""
+    badly fitted values, text values with units, unknown units, no units, timers, inline temperatures, cookware,
+    ingredients without quantity, sections and metadata; a third of them scaled first (fitted fractions as input)"""
     out = []
     keys = [k for u in units for k in unit_keys(u) if k and " " not in k and not k[0].isdigit()]
-    vals = ["5", "1500", "0.5", "2", "250", "1/2", "1 1/2", "3-4", "1500-2500", "some", "a bit", "0.001", "12"]
+    vals = ["5", "1500", "0.5", "2", "250", "1/2", "1 1/2", "3-4", "1500-2500", "some", "a bit", "0.001", "12",
+            "0", "2.5-3", "1/3", "100000", "0.33", "=3", "7 1/8"]
     names = ["milk", "flour", "salt", "water", "oil", "rice"]
-    n = 400 if tier == "quick" else 8000
+    factors = [2.0, 0.5, 3.0, 1 / 3, 7.5, 0.1]
+    n = 1500 if tier == "quick" else 15000
     for _ in range(n):
         parts = []
         for j in range(rng.randint(1, 6)):
             k = rng.random()
-            if k < 0.7:
+            if k < 0.62:
                 u = rng.choice(keys + ["pinch", "cloves"]) if rng.random() < 0.9 else None
                 v = rng.choice(vals)
                 parts.append("@%s%d{%s%s}" % (rng.choice(names), j, v, ("%" + u) if u else ""))
+            elif k < 0.7:
+                parts.append(rng.choice(["@pepper", "@sea salt{}", "@&milk0{}", "@eggs%d{3}(large)" % j]))
             elif k < 0.8:
-                parts.append("~{%s%%%s}" % (rng.choice(["90", "0.5", "36", "1500"]), rng.choice(["min", "h", "s", "d", "minutes"])))
+                parts.append("~%s{%s%%%s}" % (rng.choice(["", "rest"]), rng.choice(["90", "0.5", "36", "1500", "1-2"]),
+                                             rng.choice(["min", "h", "s", "d", "minutes", "fortnights"])))
             elif k < 0.9:
                 parts.append("#pot%d{%s}" % (j, rng.choice(["2", "big", "1-2"])))
             else:
-                parts.append("heat to %s %s" % (rng.choice(["350", "180", "0", "32"]), rng.choice(["F", "°F", "C", "ºC"])))
+                parts.append("heat to %s %s" % (rng.choice(["350", "180", "0", "32", "-40"]), rng.choice(["F", "°F", "C", "ºC", "K"])))
         text = " and ".join(parts)
+        r = rng.random()
+        if r < 0.15:
+            text = ">> servings: 2\n" + text
+        elif r < 0.3:
+            text = "= first\n" + text + "\n\n= second\nthen @butter{8%oz} and ~{10%min}"
+        fac = ""
+        if rng.random() < 0.33:
+            fac = " f" + ftok(rng.choice(factors))
         for sysn in SYSTEMS:
-            out.append("RC %s %s" % (hx(text), sysn))
+            out.append("RC %s %s%s" % (hx(text), sysn, fac))
     return out
+
+
+# ---------------------------------------------------------------- recipe level: dumps, slots, perturbation
+
+TOK_R = re.compile(r"R\(([^()]*)\)")
+TOK_F = re.compile(r"F\((\d+),(\d+),(\d+),([^(),]*)\)")
+
+
+def perturb_dump(dump, sign):
+    """every number of a recipe dump multiplied by (1 +- 2^-40) (fractions moved through their recorded error)"""
+    k = 1 + sign * REL
+
+    def fr(m):
+        w, n, d, e = int(m.group(1)), int(m.group(2)), int(m.group(3)), num(m.group(4))
+        val = Fraction(w) + (Fraction(n, d) if d else 0) + e
+        return "F(%d,%d,%d,%s)" % (w, n, d, qtok(e + sign * REL * abs(val)))
+    dump = TOK_R.sub(lambda m: "R(%s)" % qtok(num(m.group(1)) * k), dump)
+    return TOK_F.sub(fr, dump)
+
+
+def slot_unit(slot):
+    """the unit token of the quantity in a slot of a recipe dump, or None"""
+    f = slot.split(" ")
+    if f[0] in ("I", "T", "Q") and f[-1] != "-" and len(f) >= 4:
+        return f[-1]
+    return None
+
+
+def compare_rc(in_dump, out_i, out_m, alts, temp_keys):
+    """slot by slot; `alts`: model outputs at perturbed inputs.  -> (ok, used_tie, worst, worst_temp, slots, detail)"""
+    si, sm, sin = out_i.split(" / "), out_m.split(" / "), in_dump.split(" / ")
+    if not (len(si) == len(sm) == len(sin)):
+        return False, False, 0, 0, 0, "different number of slots"
+    salts = [a.split(" / ") for a in alts]
+    worst = worst_t = Fraction(0)
+    tie = False
+    nq = 0
+    for j, (a, b, src) in enumerate(zip(si, sm, sin)):
+        atol = Fraction(1, 10 ** 9) if slot_unit(src) in temp_keys else Fraction(0)
+        fs = src.split(" ")
+        if fs[0] == "Q" or (fs[0] in ("I", "T") and fs[2] != "-"):
+            nq += 1
+        same, close, dev = compare(a, b, atol)
+        if same and close:
+            if atol:
+                worst_t = max(worst_t, dev)
+            else:
+                worst = max(worst, dev)
+            continue
+        ok = False
+        for sa in salts:
+            if len(sa) == len(si):
+                s2, c2, _ = compare(a, sa[j], atol, rel=REL * 8)
+                ok = ok or (s2 and c2)
+        if not ok:
+            return False, False, worst, worst_t, nq, "slot %d: impl %r model %r" % (j, a, b)
+        tie = True
+    return True, tie, worst, worst_t, nq, ""
 
 
 def gen_quantity_cases(rng, tier, units, grid, temp_extra, keyvariants):
@@ -356,12 +431,21 @@ def run(rep, tier, seed):
     impl = common.run_lines(impl_exe, cases, tag="impl")
     model = common.run_lines(runner, cases, tag="model")
 
-    # recipe level (implementation only; the monitor in the harness states it): ScaledRecipe::convert must do to
-    # every ingredient, timer and inline quantity exactly what converting that quantity alone does, store one error
-    # per failure, leave failures and everything else untouched
-    rc_cases = [c for c in corpus if c.startswith("RC ")] + gen_recipe_cases(rng, tier, units)
+    # recipe level: ScaledRecipe::convert must do to every ingredient, timer and inline quantity exactly what converting
+    # that quantity alone does, store one error per failure, leave failures and everything else untouched (monitor in
+    # the harness); the model converts the recipe the implementation dumped before converting
+    rc_cases = list(dict.fromkeys([c for c in corpus if c.startswith("RC ")] + gen_recipe_cases(rng, tier, units)))
     rc_impl = common.run_lines(impl_exe, rc_cases, tag="impl-rc")
-    rc_stats = {"recipes": 0, "quantities": 0, "converted": 0, "errors": 0, "invalid": 0}
+    rc_stats = {"recipes": 0, "scaled_first": 0, "quantities": 0, "converted": 0, "errors": 0, "invalid": 0,
+                "error_kinds": {}, "slots_compared": 0, "quantities_compared": 0, "rounding_ties": 0}
+    rc_parsed = []   # (case, in_dump, out_dump, errs, v, raw line)
+    for c, li in zip(rc_cases, rc_impl):
+        hi_, v = strip_v(li)
+        parts = hi_.split(" | ")
+        if len(parts) == 4:
+            rc_parsed.append((c, parts[1], parts[2], parts[3], v, li))
+    rm_lines = ["RM %s %s" % (c.split(" ")[2], din) for c, din, _, _, _, _ in rc_parsed]
+    rc_model = common.run_lines(runner, rm_lines, tag="model-rc")
 
     monitor_hits = []
     disagreements = []
@@ -390,19 +474,62 @@ def run(rep, tier, seed):
         else:
             pending.append((c, li, lm, v))
 
+    rc_worst = rc_worst_temp = Fraction(0)
+    rc_ties = []
     for c, li in zip(rc_cases, rc_impl):
         hi_, v = strip_v(li)
         if hi_ == "rc invalid":
             rc_stats["invalid"] += 1
-            continue
+        elif len(hi_.split(" | ")) != 4:
+            monitor_hits.append((c, "C09 monitor (ScaledRecipe::convert): " + (v if v != "-" else "malformed output"),
+                                 {"case": c, "recipe": unhx(c.split(" ")[1]), "impl": li, "violated": v}))
+    rc_pending = []
+    for (c, din, dout, errs, v, li), lm in zip(rc_parsed, rc_model):
         if v != "-":
             monitor_hits.append((c, "C09 monitor (ScaledRecipe::convert): " + v,
                                  {"case": c, "recipe": unhx(c.split(" ")[1]), "system": c.split(" ")[2], "impl": li, "violated": v}))
-        f = hi_.split(" ")
+        f = li.split(" ")
         rc_stats["recipes"] += 1
+        rc_stats["scaled_first"] += 1 if len(c.split(" ")) > 3 else 0
         rc_stats["quantities"] += int(f[1])
         rc_stats["converted"] += int(f[2])
         rc_stats["errors"] += int(f[3])
+        for e in (errs[2:].split(",") if errs != "E -" else []):
+            rc_stats["error_kinds"][e] = rc_stats["error_kinds"].get(e, 0) + 1
+        mp = lm.split(" | ")
+        if len(mp) != 2 or mp[1] != errs:
+            disagreements.append((c, {"case": c, "recipe": unhx(c.split(" ")[1]), "impl": li, "model": lm,
+                                      "kind": "recipe level: error list / panic"}))
+            continue
+        ok, tie, w, wt, nq, detail = compare_rc(din, dout, mp[0], [], temp_keys)
+        if ok:
+            rc_stats["slots_compared"] += len(dout.split(" / "))
+            rc_stats["quantities_compared"] += nq
+            rc_worst, rc_worst_temp = max(rc_worst, w), max(rc_worst_temp, wt)
+        else:
+            rc_pending.append((c, din, dout, mp[0], v, li, lm))
+    if rc_pending:
+        pl = []
+        for c, din, dout, mo, v, li, lm in rc_pending:
+            for sgn in (1, -1):
+                pl.append("RM %s %s" % (c.split(" ")[2], perturb_dump(din, sgn)))
+        pm = common.run_lines(runner, pl, tag="model-rc-tie")
+        for idx, (c, din, dout, mo, v, li, lm) in enumerate(rc_pending):
+            alts = [x.split(" | ")[0] for x in pm[2 * idx: 2 * idx + 2]]
+            ok, tie, w, wt, nq, detail = compare_rc(din, dout, mo, alts, temp_keys)
+            if ok:
+                rc_stats["slots_compared"] += len(dout.split(" / "))
+                rc_stats["quantities_compared"] += nq
+            if ok and v == "-":
+                rc_ties.append({"case": c, "recipe": unhx(c.split(" ")[1]), "impl": dout, "model": mo})
+            else:
+                disagreements.append((c, {"case": c, "recipe": unhx(c.split(" ")[1]), "impl": li, "model": lm,
+                                          "kind": "recipe level: " + (detail or "monitor rejected the tie")}))
+    rc_stats["rounding_ties"] = len(rc_ties)
+    rc_stats["rounding_tie_samples"] = rc_ties[:2]
+    rc_stats["worst_relative_deviation"] = float(rc_worst)
+    rc_stats["worst_relative_deviation_temperature_slots_within_abs_1e-9"] = float(rc_worst_temp)
+    kinds["RC"] = len(rc_cases)
 
     # rounding ties: the model at v(1 +- 2^-40) gives the implementation's answer and the monitor accepts
     ties = []
@@ -450,11 +577,12 @@ def run(rep, tier, seed):
             monitor_hits.append((wit, "C09 definitions: " + bad, {"case": wit, "violated": "definitions", "detail": bad}))
 
     common.decide(rep, "C09", "L-conv", audit, monitor_hits, disagreements, tier,
-                  "correspondence Model/Convert.v <-> src/convert/mod.rs, builder.rs (single file), quantity.rs new_approx")
+                  "correspondence Model/Convert.v, Model/RecipeConvert.v <-> src/convert/mod.rs, builder.rs (single file), "
+                  "quantity.rs new_approx")
     common.proof_coverage(rep, "C09", audit, tier,
                           "Converter::{convert,convert_to_unit,convert_to_best,convert_value,convert_f64,get_unit,find_unit,"
                           "fractions_config}, BestConversions::best_unit, ScaledQuantity::{convert_impl,fit,fit_fraction,"
-                          "try_fraction} (src/convert/mod.rs 141-158,196-218,316-388,455-725), the single-file path of "
+                          "try_fraction}, ScaledRecipe::convert (src/convert/mod.rs 141-158,196-218,316-388,415-725), the single-file path of "
                           "ConverterBuilder (builder.rs 73-275,365-419,457-534), Number::new_approx and the fraction table "
                           "(quantity.rs 637-790, runner only); f64 arithmetic is exact rational arithmetic in the model")
     pairs = sum(1 for c in cases if c.startswith("C "))
@@ -464,6 +592,10 @@ def run(rep, tier, seed):
             if c.startswith(want + " ") and " ok" in " " + li:
                 samples.append({"case": c, "impl": li})
                 break
+    for (c, din, dout, errs, v, li), lm in list(zip(rc_parsed, rc_model))[:400]:
+        if errs != "E -" and int(li.split(" ")[2]) > 0:
+            samples.append({"case": c, "recipe": unhx(c.split(" ")[1]), "impl": li, "model": lm})
+            break
     rep.coverage.update({
         "evaluations": len(cases) + len(rc_cases), "case_kinds": kinds, "impl_outcomes": outcomes,
         "units": len(units), "unit_keys": sum(len(unit_keys(u)) for u in units),
@@ -472,14 +604,16 @@ def run(rep, tier, seed):
                 "values (+%d for temperature), every key of every unit, %s triples inside a physical quantity, both "
                 "systems x grid x values on and around every best-list threshold, ranges, %d seeded fit cases "
                 "(numbers, ranges, fractions), all pairs through ScaledQuantity::convert, text / unit-less / unknown-unit "
-                "/ cross-quantity failure cases; unit table and best lists dumped and compared; corpus first"
+                "/ cross-quantity failure cases; unit table and best lists dumped and compared; %d generated recipes x both "
+                "systems through ScaledRecipe::convert (a third scaled first), model and implementation compared slot by "
+                "slot; corpus first"
                 % (len(units), len(grid), len(temp_extra), "2000 sampled" if tier == "quick" else "all",
-                   kinds.get("QF", 0)),
+                   kinds.get("QF", 0), len(rc_cases) // 2),
         "exhaustive": False,
         "tolerance": "relative 2^-40 (temperature: + absolute 1e-9)",
         "worst_relative_deviation": float(worst),
         "worst_relative_deviation_temperature_cases": float(worst_temp),
-        "rounding_ties": len(ties), "rounding_tie_samples": ties[:3],
+        "rounding_ties": len(ties) + len(rc_ties), "rounding_tie_samples": ties[:3],
         "recipe_level_convert": rc_stats,
         "correspondence_disagreements": len(disagreements), "monitor_violations": len(monitor_hits),
         "units_toml_regenerated_changed": bool(regenerated),
@@ -488,7 +622,8 @@ def run(rep, tier, seed):
     })
     rep.assumptions = [
         "approx_exact (Section hypothesis of C09_convert_preserves / C09_fit_preserves / C09_fit_member / "
-        "C09_failures_frame): Number::new_approx returns a number whose value() is its input - C12's subject; "
+        "C09_failures_frame / C09_recipe_convert / C09_recipe_each / C09_recipe_twice; discharged for the model of "
+        "new_approx in C09_recipe_shipped): Number::new_approx returns a number whose value() is its input - C12's subject; "
         "monitored here on every fit / convert case through the amount check",
         "IEEE rounding is not modelled: theorems are about exact rationals, the implementation is compared within 2^-40",
         "std::ptr::eq(from, to) in Converter::convert_f64 is modelled as equality of unit ids (all references come from the converter)",
